@@ -173,6 +173,9 @@ impl JobManager {
 
     /// Polls all managed jobs for completion.
     pub fn poll(&mut self) -> Result<Vec<JobResult>, error::Error> {
+        #[cfg(feature = "verif-hooks")]
+        crate::verif_pause::pause_blocking("poll");
+
         let mut results = Vec::with_capacity(self.jobs.len());
 
         let mut i = 0;
